@@ -396,6 +396,44 @@ def run_history(otype, config, ops):
                         fails.append(("rpm-device:%s:differs-from-read-property:%s-for-%s" % ("wildcard" if wild else "own-id", got[0], one[0]),
                                       "%s: %s[%r] of %r: ReadPropertyMultiple says %r, ReadProperty says %r" % (ctx, pid, index, target, got, one)))
                         break
+            elif k == "devsel":
+                # the selectors on the device object: everything its property list names and ReadProperty can answer is in 'all', and says the same
+                from bacpypes.apdu import ReadAccessSpecification
+                from bacpypes.basetypes import PropertyReference
+                from bacpypes.pdu import PDUData
+                target = ("device", 4194303) if op[2] else ("device", 2)
+                stats["refused"] += 1
+
+                def octs2(anyv):
+                    pd = PDUData()
+                    anyv.tagList.encode(pd)
+                    return bytes(pd.pduData)
+                r = call(A.ReadPropertyMultipleRequest(listOfReadAccessSpecs=[ReadAccessSpecification(objectIdentifier=target, listOfPropertyReferences=[PropertyReference(propertyIdentifier=op[1])])]))
+                if not isinstance(r, A.ReadPropertyMultipleACK):
+                    fails.append(("rpm-device:selector-not-acked", "%s: %r" % (ctx, error_of(r) or r)))
+                    break
+                got_sel = {}
+                for el in r.listOfReadAccessResults[0].listOfResults:
+                    got_sel[str(el.propertyIdentifier)] = ("value", octs2(el.readResult.propertyValue)) if el.readResult.propertyAccessError is None else ("error", None)
+                pl = call(A.ReadPropertyRequest(objectIdentifier=target, propertyIdentifier="propertyList"))
+                names = [str(x) for x in pl.propertyValue.cast_out(V.lib().C.ArrayOf(V.lib().B.PropertyIdentifier))] if isinstance(pl, A.ReadPropertyACK) else []
+                dev_obj = dev.app.localDevice
+                for pn in sorted(set(names + ["objectName", "objectType", "objectIdentifier"] + [str(x) for x in dev_obj._properties])):
+                    if pn == "propertyList":
+                        continue
+                    prop_ = dev_obj._properties.get(pn)
+                    if prop_ is None:
+                        continue
+                    if (op[1] == "required" and prop_.optional) or (op[1] == "optional" and not prop_.optional):
+                        continue
+                    one = call(A.ReadPropertyRequest(objectIdentifier=target, propertyIdentifier=pn))
+                    if isinstance(one, A.ReadPropertyACK):
+                        if pn not in got_sel:
+                            fails.append(("rpm-device:selector-%s:omits-readable-property" % op[1], "%s: ReadProperty answers %s but the '%s' selector leaves it out (returned: %r)" % (ctx, pn, op[1], sorted(got_sel))))
+                            break
+                        if got_sel[pn] != ("value", octs2(one.propertyValue)):
+                            fails.append(("rpm-device:selector-%s:differs-from-read-property" % op[1], "%s: %s" % (ctx, pn)))
+                            break
             elif k == "devarr":
                 # computed arrays of the device object: index 0 is the length, index i the i-th element of the array read whole
                 from bacpypes.pdu import PDUData
@@ -652,6 +690,7 @@ def history_strategy(otype, focus=None):
                                 ["maxApduLengthAccepted", None], ["systemStatus", None], ["objectList", 200], ["presentValue", None], ["objectName", 1], ["protocolServicesSupported", None]])
         alts.append(st.tuples(st.just("dev"), st.lists(dref, min_size=1, max_size=4), st.booleans()).map(list))
         alts.append(st.tuples(st.just("devarr"), st.sampled_from(["objectList", "propertyList", "objectList"]), st.booleans()).map(list))
+        alts.append(st.tuples(st.just("devsel"), st.sampled_from(["all", "required", "optional"]), st.booleans()).map(list))
         ref = st.tuples(st.sampled_from(pids + unknown_pids[:1]), index).map(list)
         alts.append(st.tuples(st.just("rpm"), st.lists(ref, min_size=1, max_size=4), st.sampled_from([False, False, False, True])).map(list))
         alts.append(st.tuples(st.just("rpm"), st.sampled_from([[["all", None]], [["required", None]], [["optional", None]]]), st.sampled_from([False, False, True])).map(list))
